@@ -126,23 +126,19 @@ Section EntryHash.
   Proof. intros Hn. replace (2 ^ n - 1) with (Z.ones n) by (rewrite Z.ones_equiv; lia). apply Z.land_ones. exact Hn. Qed.
 
   (* for hash lengths 1..8 bytes (the builder writes HashSize = 3): the 64-bit entry hash modulo 256^HashLen *)
-  Theorem BucketHeader_Hash_is_mod f d hl key rest : 0 <= d -> (1 <= hl <= 8)%N ->
-    call prog ext_eh f "BucketHeader.Hash"
-      [VStruct (("HashDomain", VInt d) :: ("NumEntries", VInt 0) :: ("HashLen", VInt (Z.of_N hl)) :: rest); VInts key]
-    = RRet (VInt (Z.of_N (eh d key mod 256 ^ hl))).
-  Proof.
-    intros Hd Hhl.
-    unfold call. rewrite prog_BucketHeader_Hash. unfold fn_BucketHeader_Hash. cbn [f_params f_body bind_params].
-    go_run. unfold ext_eh at 1. go_run.
-    assert (Hcases : (hl = 1 \/ hl = 2 \/ hl = 3 \/ hl = 4 \/ hl = 5 \/ hl = 6 \/ hl = 7 \/ hl = 8)%N) by lia.
-    pose proof (eh_u64 d key) as Hu. unfold u64 in Hu.
+  Ltac hash_mod_script pre d key hl :=
+    unfold call; rewrite prog_BucketHeader_Hash; unfold fn_BucketHeader_Hash; cbn [f_params f_body bind_params];
+    go_run; pre; unfold ext_eh at 1; go_run;
+    let Hcases := fresh "Hcases" in let Hu := fresh "Hu" in let Hfin := fresh "Hfin" in
+    assert (Hcases : (hl = 1 \/ hl = 2 \/ hl = 3 \/ hl = 4 \/ hl = 5 \/ hl = 6 \/ hl = 7 \/ hl = 8)%N) by lia;
+    pose proof (eh_u64 d key) as Hu; unfold u64 in Hu;
     assert (Hfin : forall n : Z, 0 <= n <= 64 ->
-              wrap U64 (Z.land (Z.of_N (eh d key)) (2 ^ n - 1)) = Z.of_N (eh d key) mod 2 ^ n).
-    { intros n Hn. rewrite land_mask by lia. apply wrap_u64_small.
-      pose proof (Z.mod_pos_bound (Z.of_N (eh d key)) (2 ^ n) ltac:(apply Z.pow_pos_nonneg; lia)).
-      assert (2 ^ n <= 2 ^ 64) by (apply Z.pow_le_mono_r; lia).
-      change (2 ^ 64) with 18446744073709551616 in *. lia. }
-    destruct Hcases as [->|[->|[->|[->|[->|[->|[->| ->]]]]]]];
+              wrap U64 (Z.land (Z.of_N (eh d key)) (2 ^ n - 1)) = Z.of_N (eh d key) mod 2 ^ n);
+    [ intros n Hn; rewrite land_mask by lia; apply wrap_u64_small;
+      pose proof (Z.mod_pos_bound (Z.of_N (eh d key)) (2 ^ n) ltac:(apply Z.pow_pos_nonneg; lia));
+      assert (2 ^ n <= 2 ^ 64) by (apply Z.pow_le_mono_r; lia);
+      change (2 ^ 64) with 18446744073709551616 in *; lia
+    | destruct Hcases as [->|[->|[->|[->|[->|[->|[->| ->]]]]]]];
       cbn [Z.of_N]; go_consts;
       match goal with
       | |- context [wrap U8 (64 - wrap U8 (?a * 8))] =>
@@ -153,15 +149,33 @@ Section EntryHash.
       | |- context [wrap U64 (Z.shiftr 18446744073709551615 ?s)] =>
           let v := eval vm_compute in (wrap U64 (Z.shiftr 18446744073709551615 s)) in
           change (wrap U64 (Z.shiftr 18446744073709551615 s)) with v
-      end.
-    - change 255 with (2 ^ 8 - 1). rewrite Hfin by lia. rewrite N2Z.inj_mod. reflexivity.
-    - change 65535 with (2 ^ 16 - 1). rewrite Hfin by lia. rewrite N2Z.inj_mod. reflexivity.
-    - change 16777215 with (2 ^ 24 - 1). rewrite Hfin by lia. rewrite N2Z.inj_mod. reflexivity.
-    - change 4294967295 with (2 ^ 32 - 1). rewrite Hfin by lia. rewrite N2Z.inj_mod. reflexivity.
-    - change 1099511627775 with (2 ^ 40 - 1). rewrite Hfin by lia. rewrite N2Z.inj_mod. reflexivity.
-    - change 281474976710655 with (2 ^ 48 - 1). rewrite Hfin by lia. rewrite N2Z.inj_mod. reflexivity.
-    - change 72057594037927935 with (2 ^ 56 - 1). rewrite Hfin by lia. rewrite N2Z.inj_mod. reflexivity.
-    - change 18446744073709551615 with (2 ^ 64 - 1). rewrite Hfin by lia. rewrite N2Z.inj_mod. reflexivity.
-  Qed.
+      end;
+      [ change 255 with (2 ^ 8 - 1) | change 65535 with (2 ^ 16 - 1) | change 16777215 with (2 ^ 24 - 1)
+      | change 4294967295 with (2 ^ 32 - 1) | change 1099511627775 with (2 ^ 40 - 1)
+      | change 281474976710655 with (2 ^ 48 - 1) | change 72057594037927935 with (2 ^ 56 - 1)
+      | change 18446744073709551615 with (2 ^ 64 - 1) ];
+      rewrite Hfin by lia; rewrite N2Z.inj_mod; reflexivity ].
+
+  Theorem BucketHeader_Hash_is_mod f d hl key rest : 0 <= d -> (1 <= hl <= 8)%N ->
+    call prog ext_eh f "BucketHeader.Hash"
+      [VStruct (("HashDomain", VInt d) :: ("NumEntries", VInt 0) :: ("HashLen", VInt (Z.of_N hl)) :: rest); VInts key]
+    = RRet (VInt (Z.of_N (eh d key mod 256 ^ hl))).
+  Proof. intros Hd Hhl. hash_mod_script idtac d key hl. Qed.
+
+  (* the same for a header value that lists its fields in another order and with any entry count (field access is by
+     name; this is the shape the C13 loader theorems use) *)
+  Theorem BucketHeader_Hash_is_mod' f d ne hl key rest : 0 <= d -> (1 <= hl <= 8)%N ->
+    call prog ext_eh f "BucketHeader.Hash"
+      [VStruct (("HashLen", VInt (Z.of_N hl)) :: ("HashDomain", VInt d) :: ("NumEntries", VInt ne) :: rest); VInts key]
+    = RRet (VInt (Z.of_N (eh d key mod 256 ^ hl))).
+  Proof. intros Hd Hhl. hash_mod_script idtac d key hl. Qed.
+  (* ... and under ANY oracle that answers "EntryHash64" as ext_eh does (callers use further externals) *)
+  Theorem BucketHeader_Hash_is_mod_ext' (ext : string -> list val -> option val) f d ne hl key rest :
+    (forall d k, ext "EntryHash64" [VInt d; VInts k] = ext_eh "EntryHash64" [VInt d; VInts k]) ->
+    0 <= d -> (1 <= hl <= 8)%N ->
+    call prog ext f "BucketHeader.Hash"
+      [VStruct (("HashLen", VInt (Z.of_N hl)) :: ("HashDomain", VInt d) :: ("NumEntries", VInt ne) :: rest); VInts key]
+    = RRet (VInt (Z.of_N (eh d key mod 256 ^ hl))).
+  Proof. intros Hext Hd Hhl. hash_mod_script ltac:(rewrite Hext) d key hl. Qed.
 End EntryHash.
 End Generic.
